@@ -221,13 +221,118 @@ fn exec(n: usize, ctor: u8, ops: &[Op], only_c02: bool) -> Option<(String, Strin
     }
 }
 
+// ---------------------------------------------------------------- built-in items and the pair combinator (C01)
+use rlib_segtree::segtree_items::{Combinator, Max, MaxAdd, Min, MinAdd, Sum, SumAdd};
+type Nest = Combinator<SumAdd<i64>, Combinator<MinAdd<i64>, MaxAdd<i64>>>;
+
+/// history "B<n>;<ctor>;op;op.." with op = s<i>:<v> | m<l>-<r>:<d> | a<l>-<r> : the nested combinator must agree with its three components run
+/// side by side, with the non-lazy Min / Max / Sum trees (sets and asks only) and with a plain array
+fn builtin_exec(n: usize, ctor: u8, ops: &[(char, usize, usize, i64)]) -> Option<(String, String)> {
+    let r = guarded(|| {
+        let init: Vec<i64> = (0..n as i64).map(|i| (i * 7) % 5 - 2).collect();
+        let mut a = init.clone();
+        let mk = |v: &Vec<i64>| -> Segtree<Nest, i64> {
+            let items: Vec<Nest> = v.iter().map(|&x| Nest::from(x)).collect();
+            match ctor { 0 => Segtree::from_slice(&items), _ => Segtree::from_iter(items.into_iter()) }
+        };
+        let mut t = mk(&a);
+        let mut ts: Segtree<SumAdd<i64>, i64> = Segtree::from_slice(&a.iter().map(|&x| SumAdd::new(x)).collect::<Vec<_>>());
+        let mut tmn: Segtree<MinAdd<i64>, i64> = Segtree::from_slice(&a.iter().map(|&x| MinAdd::new(x)).collect::<Vec<_>>());
+        let mut tmx: Segtree<MaxAdd<i64>, i64> = Segtree::from_slice(&a.iter().map(|&x| MaxAdd::new(x)).collect::<Vec<_>>());
+        let mut pl_min: Segtree<Min<i64>, ()> = Segtree::from_slice(&a.iter().map(|&x| Min::new(x)).collect::<Vec<_>>());
+        let mut pl_max: Segtree<Max<i64>, ()> = Segtree::from_slice(&a.iter().map(|&x| Max::new(x)).collect::<Vec<_>>());
+        let mut pl_sum: Segtree<Sum<i64>, ()> = Segtree::from_slice(&a.iter().map(|&x| Sum::new(x)).collect::<Vec<_>>());
+        let mut plain_ok = true; // the non-lazy trees follow as long as no range modification happened
+        for &(op, l, r, d) in ops {
+            match op {
+                's' => {
+                    a[l] = d;
+                    t.set(l, Nest::from(d)); ts.set(l, SumAdd::new(d)); tmn.set(l, MinAdd::new(d)); tmx.set(l, MaxAdd::new(d));
+                    pl_min.set(l, Min::new(d)); pl_max.set(l, Max::new(d)); pl_sum.set(l, Sum::new(d));
+                }
+                'm' => {
+                    for x in a[l..=r].iter_mut() { *x += d; }
+                    t.modify(l, r, &d); ts.modify(l, r, &d); tmn.modify(l, r, &d); tmx.modify(l, r, &d);
+                    plain_ok = false;
+                }
+                _ => {
+                    let want = (a[l..=r].iter().sum::<i64>(), *a[l..=r].iter().min().unwrap(), *a[l..=r].iter().max().unwrap());
+                    let g = t.ask(l, r);
+                    let nest = (g.0.v, (g.1).0.v, (g.1).1.v);
+                    let side = (ts.ask(l, r).v, tmn.ask(l, r).v, tmx.ask(l, r).v);
+                    if nest != want || side != want {
+                        return Some((format!("ask({},{}): nested combinator (sum, min, max) = {:?}, components side by side = {:?}", l, r, nest, side), format!("{:?}", want)));
+                    }
+                    if plain_ok {
+                        let p = (pl_sum.ask(l, r).v, pl_min.ask(l, r).v, pl_max.ask(l, r).v);
+                        if p != want { return Some((format!("ask({},{}): Sum / Min / Max trees = {:?}", l, r, p), format!("{:?}", want))); }
+                    }
+                }
+            }
+        }
+        None
+    });
+    match r { Ok(x) => x, Err(e) => Some((e, "no panic".into())) }
+}
+fn builtin_enc(n: usize, ctor: u8, ops: &[(char, usize, usize, i64)]) -> String {
+    format!("B{};{};{}", n, ctor, ops.iter().map(|(o, l, r, d)| format!("{}{}-{}:{}", o, l, r, d)).collect::<Vec<_>>().join(";"))
+}
+fn builtin_dec(s: &str) -> Option<(usize, u8, Vec<(char, usize, usize, i64)>)> {
+    let p: Vec<&str> = s.split(';').collect();
+    let n = p[0][1..].parse().ok()?;
+    let ctor = p.get(1)?.parse().ok()?;
+    let ops = p[2..].iter().filter(|x| !x.is_empty()).filter_map(|o| {
+        let c = o.chars().next()?;
+        let q: Vec<&str> = o[1..].split(|ch| ch == '-' || ch == ':').collect();
+        // a negative delta carries its own '-': re-join
+        let (l, r) = (q.get(0)?.parse().ok()?, q.get(1)?.parse().ok()?);
+        let d: i64 = o[1..].splitn(2, ':').nth(1)?.parse().ok()?;
+        Some((c, l, r, d))
+    }).collect();
+    Some((n, ctor, ops))
+}
+
 pub fn run(seed: u64, replay: Option<String>, c02: bool) -> Outcome {
+    if let Some(r) = &replay {
+        if r.starts_with('B') {
+            let c = builtin_dec(r).and_then(|(n, ctor, ops)| builtin_exec(n, ctor, &ops)).map(|(o, e)| Cex { input: r.clone(), observed: o, expected: e });
+            return Outcome { cex: c, cases: 1 };
+        }
+    }
     if let Some(r) = replay {
         let c = dec(&r).and_then(|(n, ctor, ops)| exec(n, ctor, &ops, false)).map(|(o, e)| Cex { input: r.clone(), observed: o, expected: e });
         return Outcome { cex: c, cases: 1 };
     }
     let mut cases = 0;
     let mut rng = Lcg(seed ^ 0xc01);
+    if !c02 {
+        for round in 0..3000u64 {
+            let n = 1 + (round % 9) as usize;
+            let ctor = (round / 9 % 2) as u8;
+            let mut ops = Vec::new();
+            for _ in 0..(1 + rng.below(7)) {
+                let l = rng.below(n as u64) as usize;
+                let r = l + rng.below((n - l) as u64) as usize;
+                let d = rng.below(9) as i64 - 4;
+                ops.push(match rng.below(5) { 0 => ('s', l, l, d), 1 | 2 => ('m', l, r, d), _ => ('a', l, r, 0) });
+            }
+            cases += 1;
+            if builtin_exec(n, ctor, &ops).is_some() {
+                let mut best = ops.clone();
+                let mut changed = true;
+                while changed {
+                    changed = false;
+                    for i in 0..best.len() {
+                        let mut t = best.clone();
+                        t.remove(i);
+                        if builtin_exec(n, ctor, &t).is_some() { best = t; changed = true; break; }
+                    }
+                }
+                let (o, e) = builtin_exec(n, ctor, &best).unwrap();
+                return Outcome { cex: Some(Cex { input: builtin_enc(n, ctor, &best), observed: o, expected: e }), cases };
+            }
+        }
+    }
     for round in 0..6000u64 {
         let n = 1 + (round % 9) as usize;
         let ctor = (round / 9 % 3) as u8;
